@@ -1108,7 +1108,7 @@ def _snapshot(mgr, coreNames):
 def _eval_hist(case):
     """case: {"kind": "hist", "init": name, "ops": [...]}. Returns (viols, number of compared uses)."""
     from armi.physics.neutronics import crossSectionGroupManager as X
-    from armi.physics.neutronics.crossSectionSettings import XSModelingOptions
+    from armi.physics.neutronics.crossSectionSettings import XSModelingOptions, serializeXSSettings
     from mcverif import build, observe
 
     vs = []
@@ -1133,7 +1133,12 @@ def _eval_hist(case):
         nonlocal nuse
         nuse += 1
         got = _snapshot(mgr, coreNames)
-        fresh = X.CrossSectionGroupManager(r, _fresh_cs(eff, entries))
+        # the reference is built from what the LIVE settings hold now: explicit entries with whatever
+        # attributes they carry at this moment (setDefaults writes the defaults it fills in into the
+        # entry, by design: an entry keeps them when the global default changes later), taken through
+        # their public serialisation so that no hidden cache of the live object comes along
+        live = serializeXSSettings(cs["crossSectionControl"])
+        fresh = X.CrossSectionGroupManager(r, _fresh_cs(eff, live))
         fresh.interactBOL()
         want = _snapshot(fresh, coreNames)
         for what in ("outcome", "class", "candidates", "partition", "foreign", "reps", "nT"):
